@@ -18,6 +18,7 @@ import (
 
 	"github.com/splunk/stef/go/otel/otelstef"
 	"github.com/splunk/stef/go/pkg"
+	"github.com/splunk/stef/go/pkg/schema"
 
 	"verif/harness/internal/recgen"
 	"verif/harness/internal/rng"
@@ -122,6 +123,9 @@ var schemaLinePrinted = false
 
 func loadSchema() {
 	path := "/repo/go/otel/otel.stef"
+	if p := os.Getenv("VERIF_REPO"); p != "" {
+		path = p + "/go/otel/otel.stef"
+	}
 	if p := os.Getenv("VERIF_STEF_SCHEMA"); p != "" {
 		path = p
 	}
@@ -220,12 +224,15 @@ func (rs *rootSpec) openReader(stream []byte, nread int) (v reflect.Value) {
 // Writer options.
 
 type wopts struct {
-	zstd      bool
-	frameSize uint
-	dictSize  uint
-	flags     pkg.FrameFlags
-	desc      bool
-	userData  int
+	// schema: the wire schema of an OLDER producer to write in (WriterOptions.Schema), nil = own
+	schema     *schema.WireSchema
+	schemaDesc string
+	zstd       bool
+	frameSize  uint
+	dictSize   uint
+	flags      pkg.FrameFlags
+	desc       bool
+	userData   int
 }
 
 var frameSizes = []uint{0, 1, 7, 50, 200, 1000, 65536}
@@ -257,7 +264,11 @@ func (o wopts) String() string {
 	if o.zstd {
 		c = "zstd"
 	}
-	return fmt.Sprintf("{compr=%s F=%d L=%d flags=%03b desc=%v userdata=%d}", c, o.frameSize, o.dictSize, o.flags, o.desc, o.userData)
+	sd := ""
+	if o.schema != nil {
+		sd = " older-schema(kept fields)=" + o.schemaDesc
+	}
+	return fmt.Sprintf("{compr=%s F=%d L=%d flags=%03b desc=%v userdata=%d%s}", c, o.frameSize, o.dictSize, o.flags, o.desc, o.userData, sd)
 }
 
 func (o wopts) pkg() pkg.WriterOptions {
@@ -270,6 +281,7 @@ func (o wopts) pkg() pkg.WriterOptions {
 	if o.zstd {
 		w.Compression = pkg.CompressionZstd
 	}
+	w.Schema = o.schema
 	switch o.userData {
 	case 1:
 		w.UserData = map[string]string{"k1": "v1"}
@@ -756,4 +768,44 @@ func printStats() {
 	for _, k := range keys {
 		note("stat %s %d", k, stats[k])
 	}
+}
+
+// olderWireSchema draws the wire schema of an older producer of the root: trailing fields of
+// randomly chosen structs and oneofs are dropped (append-only evolution read backwards), what
+// becomes unreachable is pruned; with cutOneofs every oneof loses alternatives. Returns nil when the
+// schema package refuses the result.
+func olderWireSchema(r *rng.R, rootName string, cutOneofs bool) (ws *schema.WireSchema, desc string) {
+	defer func() {
+		if recover() != nil {
+			ws = nil
+		}
+	}()
+	cp, err := model.Schema.PrunedForRoot(rootName)
+	if err != nil {
+		return nil, ""
+	}
+	names := make([]string, 0, len(cp.Structs))
+	for n := range cp.Structs {
+		names = append(names, n)
+	}
+	sort.Strings(names)
+	var cut []string
+	for _, n := range names {
+		st := cp.Structs[n]
+		if len(st.Fields) < 2 || !(r.Chance(1, 3) || (cutOneofs && st.OneOf)) {
+			continue
+		}
+		keep := 1 + r.Intn(len(st.Fields)-1)
+		st.Fields = st.Fields[:keep]
+		cut = append(cut, fmt.Sprintf("%s:%d", n, keep))
+	}
+	if len(cut) == 0 {
+		return nil, ""
+	}
+	pr, err := cp.PrunedForRoot(rootName)
+	if err != nil {
+		return nil, ""
+	}
+	w := schema.NewWireSchema(pr, rootName)
+	return &w, strings.Join(cut, ",")
 }
